@@ -60,10 +60,14 @@ Fixpoint hex_items (first : bool) (l : bytes) : bytes :=
 Definition nl2sp (c : N) : N := if (c =? 13) || (c =? 10) || (c =? 9) then 32 else c.
 
 (* `raw[0..len - if last == 0 {1} else {0}]` for a non-empty raw *)
-Definition strip_nul (raw : bytes) : bytes :=
-  match rev raw with
-  | 0 :: r => rev r
-  | _ => raw
+Fixpoint strip_nul (raw : bytes) : bytes :=
+  match raw with
+  | [] => []
+  | b :: r =>
+      match r with
+      | [] => if b =? 0 then [] else [b]
+      | _ => b :: strip_nul r
+      end
   end.
 
 Definition site_text_index : N := 1802.
